@@ -312,6 +312,13 @@ def _check_verify(ck: Checker, rule: str) -> None:
                    "with verify on, each object is integrity-checked before it is protected",
                    "with verify on, an object can be protected (made 'trusted') before / without being integrity-checked - a protected local object is never re-hashed",
                    witness=g.fmt_path(g.path_to(reached, n.id)) if bad else None, construct=f"{n.text()} / check before protect")
+        # every object that reaches the end of the loop body normally was protected (whatever the copy mode:
+        # a hard-linked object shares its inode with a possibly writable source file)
+        prot_ids = {pn.id for pn, _ in prots if head.id in pn.loops}
+        r2 = g.reach([d for lab, d in head.succ if lab == "T"], skip_node=lambda x: x.id in prot_ids, skip_edge=lambda a, lab, b: lab == "exc")
+        ck.require(head.id not in r2, rule, fn, n, "every added object is write-protected on every normal path through the post-copy loop",
+                   "an added object can leave the post-copy loop without being write-protected (e.g. protection skipped for hard-linked or unverified objects): the stored object stays writable and may share its inode with an editable file",
+                   witness=g.fmt_path(g.path_to(r2, head.id)) if head.id in r2 else None, construct=f"{n.text()} / always protected")
         # verification hashes
         for m in g.nodes.values():
             if m.id in chk:
